@@ -185,7 +185,8 @@ agrees with `f` at every other call index and the run of the same two calls with
 `p2` the search is not finished, `stopNow p2 _ = false`, and the `k`-th pass does not raise).  Let `s` be the method state left
 by the first `Solve` and `pr` the selection made in it (the same for `p1` and `p2`).  Then the second `Solve` contains the
 failure: its final state (method state `sf`) keeps, relative to `s`, everything the `Solution` of the first `Solve` reported —
-`items` up to `R`, `M`, `Z`, `best`, the best item, `nTrials = iters = k-1`, `nextId`, `evals`, `nLocal` — and differs in
+`items` up to `R`, `M`, `Z`, `best`, the best item, `nTrials = iters = k-1`, `nextId`, `evals`, `nLocal`, `refined` and hence the
+reported trial `reportedId` — and differs in
 `minDelta`, the popped queue entry, `recalc = false`, `calls = k`; the event log is that of the first `Solve` (ending in its
 `OnMethodStop(True)`) followed by the printed line and a second `OnMethodStop`; no `OnEndIteration` is added. -/
 theorem C16_fail_in_resumed_solve (p1 p2 : Params α) (f g : Nat → List α → Option α) (k : Nat) (hk : 2 ≤ k)
@@ -214,6 +215,8 @@ theorem C16_fail_in_resumed_solve (p1 p2 : Params α) (f g : Nat → List α →
       (solve p2 f (fun _ => none) (solve p1 f refine1 {})).evals = psk.evals ∧
       (solve p2 f (fun _ => none) (solve p1 f refine1 {})).evals.length = k - 1 ∧
       (solve p2 f (fun _ => none) (solve p1 f refine1 {})).nLocal = (solve p1 f refine1 {}).nLocal ∧
+      (solve p2 f (fun _ => none) (solve p1 f refine1 {})).refined = (solve p1 f refine1 {}).refined ∧
+      reportedId (solve p2 f (fun _ => none) (solve p1 f refine1 {})) sf = reportedId (solve p1 f refine1 {}) s ∧
       -- what differs
       sf = pr.s ∧
       sf.minDelta = some (minOpt pr.old.delta s.minDelta) ∧
@@ -250,7 +253,8 @@ theorem C16_fail_in_resumed_solve (p1 p2 : Params α) (f g : Nat → List α →
       PState.appendLog_log, hlogk]
   refine ⟨psk, s, pr, pr.s, hrun, hst1, (hall refine1).1, (hall refine1).2, hms, hst2, hpr, hpr1, hfail,
     by rw [hS]; rfl, q1, q2, q3, q4, q5, q6, q7, by rw [q7, hnt], q8, by rw [q8, hit], q9,
-    by rw [hS, hevals]; rfl, by rw [hS]; rfl, by rw [hS]; exact hlen, by rw [hS]; rfl, rfl, q10, q11, q12,
+    by rw [hS, hevals]; rfl, by rw [hS]; rfl, by rw [hS]; exact hlen, by rw [hS]; rfl, by rw [hS]; rfl,
+    reportedId_congr_eraseR (by rw [hS]; rfl) q1 q5, rfl, q10, q11, q12,
     by rw [hS]; rfl, ?_⟩
   rw [hS]
   show (solve p1 f refine1 {}).log ++ [Event.exceptionPrinted] ++ [Event.methodStop (stopCond p2 pr.s)] = _
@@ -269,7 +273,8 @@ theorem C16_fail_in_resumed_solve_refine (p1 p2 : Params α) (f g : Nat → List
       solve p2 f refine2 (solve p1 f refine1 {}) =
         (refineStep refine2
           { m := some pr.s, log := (solve p1 f refine1 {}).log ++ [Event.exceptionPrinted],
-            evals := psk.evals, nLocal := (solve p1 f refine1 {}).nLocal, calls := k }).appendLog
+            evals := psk.evals, nLocal := (solve p1 f refine1 {}).nLocal, calls := k,
+            refined := (solve p1 f refine1 {}).refined }).appendLog
         [Event.methodStop (stopCond p2 pr.s)] := by
   obtain ⟨psk, s, pr, hrun, -, -, -, -, -, hms, hpr, -, -, -, -, hsolve⟩ :=
     fail_in_resumed_solve (p1 := p1) (p2 := p2) hk hf hg hnr1 hK1 hK
